@@ -1,4 +1,4 @@
-use std::collections::HashMap;
+use std::collections::BTreeMap;
 
 use syn::{punctuated::Punctuated, Attribute, Meta, Path, Token};
 
@@ -8,7 +8,7 @@ use crate::{
 };
 
 pub(crate) struct FieldAttribute {
-    pub(crate) types: HashMap<HashType, Option<Path>>,
+    pub(crate) types: BTreeMap<HashType, Option<Path>>,
 }
 
 #[derive(Debug)]
@@ -20,7 +20,7 @@ impl FieldAttributeBuilder {
     pub(crate) fn build_from_into_meta(&self, meta: &[Meta]) -> syn::Result<FieldAttribute> {
         debug_assert!(!meta.is_empty());
 
-        let mut types = HashMap::new();
+        let mut types = BTreeMap::new();
 
         for meta in meta {
             debug_assert!(meta.path().is_ident("Into"));
@@ -146,7 +146,7 @@ impl FieldAttributeBuilder {
         }
 
         Ok(output.unwrap_or_else(|| FieldAttribute {
-            types: HashMap::new()
+            types: BTreeMap::new()
         }))
     }
 }
